@@ -14,7 +14,7 @@
    (iteration-order dependent; checked by exact agreement, verdict 2) and the measure identity for
    eps > 0 (where it holds only up to the precision). Statements only. *)
 From PV Require Import Model.AnnotationOps Proofs.SupportP Proofs.AnnotationInvP Proofs.AnnCropP
-  Proofs.DictP Proofs.GapsP Proofs.AnnCropInterP Proofs.CommuteP.
+  Proofs.DictP Proofs.GapsP Proofs.AnnCropInterP Proofs.CommuteP Proofs.DerivedInvP.
 
 Section C07.
 Variable eps : Z.
@@ -55,6 +55,10 @@ Theorem C07_intersection_pairs_are_all_intersecting_pairs_once : forall a S s r,
    In s (skeys (a_tracks a)) /\ In r (norm_support eps S) /\ intersects eps s r = true) /\
   NoDup (co_iter eps (skeys (a_tracks a)) (norm_support eps S)).
 Proof. exact (crop_inter_pairs eps Heps). Qed.
+(* every crop / extrude result is a proper annotation again (views fresh, no empty segment or track-less segment) *)
+Theorem C07_crop_and_extrude_keep_the_invariant : forall a S md, AInv eps a ->
+  AInv eps (crop_ann eps a S md) /\ AInv eps (extrude_ann eps a S md).
+Proof. exact (fun a S md I => conj (AInv_crop eps Heps a S md I) (AInv_extrude eps Heps a S md I)). Qed.
 (* consistency with the timeline level (C05 / C06): the segments of the cropped (extruded) annotation are
    the crop (extrusion) of the annotation's timeline, in every mode *)
 Theorem C07_timeline_of_crop_is_crop_of_timeline : forall a S md, AInv eps a ->
@@ -102,3 +106,4 @@ Print Assumptions C07_label_cells_of_extrude.
 Print Assumptions C07_crop_time_plus_extrude_time_is_original_time.
 Print Assumptions C07_timeline_of_crop_is_crop_of_timeline.
 Print Assumptions C07_timeline_of_extrude_is_extrude_of_timeline.
+Print Assumptions C07_crop_and_extrude_keep_the_invariant.
